@@ -124,7 +124,7 @@ def run_harness(meta, prop_id, keep=False):
             return res
         cur = nv
     gi_cmd = None
-    if meta.get('enforce') or meta.get('replace') or meta.get('loop_contracts'):
+    if (meta.get('enforce') or meta.get('replace') or meta.get('loop_contracts')) and not meta.get('plain'):
         b = os.path.join(wd, 'b.gb')
         gi_cmd = ['goto-instrument', '--dfcc', entry]
         if meta.get('enforce'):
@@ -205,14 +205,26 @@ def run_harness(meta, prop_id, keep=False):
     # vacuity / completeness guards
     want_named = (ex['ens_names'].get(meta.get('enforce')) or []) if meta.get('enforce') else []
     got_post = by_class.get('postcondition', 0)
-    if meta.get('enforce') and got_post != len(want_named):
+    if meta.get('enforce') and not meta.get('plain') and got_post != len(want_named):
         res['notes'].append('contract has %d named ensures clauses but cbmc reports %d postcondition obligations' % (len(want_named), got_post))
         res['status'] = 'error'
         res['total_s'] = time.time() - t0
         return res
-    if ex.get('n_loop_contracts') or meta.get('expect_loop_obligations'):
-        if by_class.get('loop', 0) == 0:
-            res['notes'].append('loop contract annotated but no loop_invariant obligations generated (contract silently dropped?)')
+    if (ex.get('n_loop_contracts') or meta.get('expect_loop_obligations')) and by_class.get('loop', 0) == 0:
+        # an invariant `1` with a statically included frame generates no obligations; then at least no
+        # loop of the annotated functions may be left for unwinding
+        rc2, out2, err2, _ = sh(['cbmc', '--show-loops', '--json-ui', cur], 120)
+        left = []
+        try:
+            for it in json.loads(out2):
+                for lp in it.get('loops', []):
+                    fn = lp.get('sourceLocation', {}).get('function', '')
+                    if not fn.startswith('__CPROVER'):
+                        left.append(lp.get('name'))
+        except Exception:
+            left = ['?']
+        if left and not (meta.get('unwind') or meta.get('bounded')):
+            res['notes'].append('loop contract annotated but loops remain un-contracted: %s' % left[:4])
             res['status'] = 'error'
             res['total_s'] = time.time() - t0
             return res
